@@ -220,27 +220,17 @@ theorem nodup_filter_names (eps : List EP) (p : EP → Bool) (h : (eps.map (·.n
     ((eps.filter p).map (·.name)).Nodup :=
   List.Nodup.sublist ((List.filter_sublist).map _) h
 
-theorem disabledSet_contains (servers : List Server) (n : Name) :
-    (disabledSet servers).contains n = specDisabled servers n := by
+theorem mem_disabledSet (servers : List Server) (n : Name) :
+    n ∈ disabledSet servers ↔ specDisabled servers n = true := by
   unfold disabledSet specDisabled
-  induction servers with
-  | nil => simp
-  | cons s rest ih =>
-    rw [Bool.eq_iff_iff] at ih ⊢
-    by_cases hd : s.disabled = true
-    · rw [List.filter_cons_of_pos hd]
-      simp only [List.map_cons, List.contains_cons, List.any_cons, Bool.or_eq_true, ih, hd, Bool.and_true]
-      constructor
-      · rintro (h | h)
-        · left; simpa [eq_comm] using h
-        · right; exact h
-      · rintro (h | h)
-        · left; simpa [eq_comm] using h
-        · right; exact h
-    · rw [List.filter_cons_of_neg hd]
-      have hd' : s.disabled = false := by simpa using hd
-      simp only [List.any_cons, Bool.or_eq_true, ih, hd', Bool.and_false]
-      simp
+  simp only [List.mem_map, List.mem_filter, List.any_eq_true, Bool.and_eq_true, beq_iff_eq]
+  constructor
+  · rintro ⟨a, ⟨ha, hd⟩, hn⟩; exact ⟨a, ha, hn, hd⟩
+  · rintro ⟨a, ha, hn, hd⟩; exact ⟨a, ⟨ha, hd⟩, hn⟩
+
+theorem disabledSet_decide (servers : List Server) (n : Name) :
+    decide (n ∈ disabledSet servers) = specDisabled servers n := by
+  rw [Bool.eq_iff_iff]; simp [mem_disabledSet]
 
 /-- the endpoints kept by the deletion loop are those still wanted -/
 theorem sync_kept (eps : List EP) (wanted : List Name) :
@@ -267,7 +257,7 @@ theorem load_syncEndpoints (s : State) (servers : List Server) (m : Name) :
   simp only
   rw [sync_kept, load_foldl_addOrUpdate s.epoch (fun n => (disabledSet servers).contains n) _ (nodup_dedup _),
     load_filter_name s.eps (fun n => (dedup (serverNames servers)).contains n)]
-  simp only [mem_dedup, List.contains_eq_mem, decide_eq_true_eq, disabledSet_contains]
+  simp only [mem_dedup, List.contains_eq_mem, decide_eq_true_eq, disabledSet_decide]
   by_cases h : m ∈ serverNames servers <;> simp [h]
 
 theorem nodup_syncEndpoints (s : State) (servers : List Server) (h : (s.eps.map (·.name)).Nodup) :
@@ -275,5 +265,409 @@ theorem nodup_syncEndpoints (s : State) (servers : List Server) (h : (s.eps.map 
   unfold syncEndpoints
   simp only
   exact nodup_foldl_addOrUpdate _ _ _ _ (nodup_filter_names _ _ h)
+
+
+/-! ## `Pop` -/
+
+theorem mem_readyList {eps : List EP} {us : List Name} {e : EP} :
+    e ∈ readyList eps us ↔ ∃ n, n ∈ us ∧ load eps n = some e ∧ e.isReady = true := by
+  unfold readyList
+  rw [List.mem_filterMap]
+  constructor
+  · rintro ⟨n, hn, h⟩
+    refine ⟨n, hn, ?_⟩
+    cases hg : load eps n with
+    | none => simp [hg] at h
+    | some e' =>
+      simp only [hg] at h
+      by_cases hr : e'.isReady = true
+      · simp only [hr, if_true, Option.some.injEq] at h
+        subst h; exact ⟨rfl, hr⟩
+      · simp [hr] at h
+  · rintro ⟨n, hn, hg, hr⟩
+    exact ⟨n, hn, by simp [hg, hr]⟩
+
+/-- the three possible answers of `Pop` -/
+theorem pop_cases (eps : List EP) (lb : List (Key × Nat)) (us : List Name) :
+    ((pop eps lb us).1 = .noReady ∧ readyList eps us = []) ∨
+    (∃ e, e ∈ readyList eps us ∧ (pop eps lb us).1 = .picked e.name e.gen) := by
+  unfold pop
+  by_cases hu : us.isEmpty = true
+  · left
+    have : us = [] := by simpa using hu
+    subst this
+    simp [readyList]
+  · simp only [hu]
+    cases hr : readyList eps us with
+    | nil => left; simp
+    | cons e1 t =>
+      right
+      cases t with
+      | nil => exact ⟨e1, by simp, by simp⟩
+      | cons e2 t2 =>
+        simp only
+        have hlt : toU64 (lbGet lb (List.map EP.id (e1 :: e2 :: t2)) + 1) % (e1 :: e2 :: t2).length < (e1 :: e2 :: t2).length :=
+          Nat.mod_lt _ (by simp)
+        rw [List.getElem?_eq_getElem hlt]
+        exact ⟨_, List.getElem_mem hlt, rfl⟩
+
+theorem pop_never_panics (eps : List EP) (lb : List (Key × Nat)) (us : List Name) : (pop eps lb us).1 ≠ .panic := by
+  rcases pop_cases eps lb us with ⟨h, _⟩ | ⟨e, _, h⟩ <;> simp [h]
+
+theorem pop_sound {eps : List EP} {lb : List (Key × Nat)} {us : List Name} {n : Name} {g : Nat}
+    (h : (pop eps lb us).1 = .picked n g) :
+    ∃ e, load eps n = some e ∧ e.gen = g ∧ n ∈ us ∧ e.isReady = true := by
+  rcases pop_cases eps lb us with ⟨h', _⟩ | ⟨e, he, h'⟩
+  · rw [h'] at h; cases h
+  · rw [h'] at h
+    injection h with h1 h2
+    obtain ⟨m, hm, hg, hr⟩ := mem_readyList.1 he
+    have := load_some_name hg
+    subst h1; subst h2
+    subst this
+    exact ⟨e, hg, rfl, hm, hr⟩
+
+theorem pop_noReady {eps : List EP} {lb : List (Key × Nat)} {us : List Name}
+    (h : (pop eps lb us).1 = .noReady) :
+    ∀ n, n ∈ us → ∀ e, load eps n = some e → e.isReady = false := by
+  rcases pop_cases eps lb us with ⟨_, h'⟩ | ⟨e, _, h'⟩
+  · intro n hn e hg
+    cases hr : e.isReady with
+    | false => rfl
+    | true =>
+      have : e ∈ readyList eps us := mem_readyList.2 ⟨n, hn, hg, hr⟩
+      rw [h'] at this; cases this
+  · rw [h'] at h; cases h
+
+
+/-! ## association lists of the abstract state -/
+
+theorem lookup_filter_fst {β : Type} (l : List (Name × β)) (q : Name → Bool) (n : Name) :
+    (l.filter fun p => q p.1).lookup n = if q n then l.lookup n else none := by
+  induction l with
+  | nil => simp
+  | cons p rest ih =>
+    obtain ⟨k, v⟩ := p
+    by_cases hq : q k = true
+    · rw [List.filter_cons_of_pos (by simpa using hq)]
+      simp only [List.lookup_cons, ih]
+      by_cases h : n = k
+      · subst h; simp [hq]
+      · have : (n == k) = false := by simpa using h
+        simp [this]
+    · rw [List.filter_cons_of_neg (by simpa using hq), ih]
+      simp only [List.lookup_cons]
+      by_cases h : n = k
+      · subst h; simp [hq]
+      · have : (n == k) = false := by simpa using h
+        simp [this]
+
+theorem lookup_map_pair {β : Type} (l : List Name) (f : Name → β) (n : Name) :
+    (l.map fun m => (m, f m)).lookup n = if n ∈ l then some (f n) else none := by
+  induction l with
+  | nil => simp
+  | cons x rest ih =>
+    simp only [List.map_cons, List.lookup_cons, ih, List.mem_cons]
+    by_cases h : n = x
+    · subst h; simp
+    · have : (n == x) = false := by simpa using h
+      simp [this, h]
+
+theorem report_lookup_sync (report : List (Name × Bool)) (servers : List Server) (n : Name) :
+    (report.filter fun p => (serverNames servers).contains p.1).lookup n
+      = if n ∈ serverNames servers then report.lookup n else none := by
+  rw [lookup_filter_fst report (fun m => (serverNames servers).contains m) n]; simp
+
+/-! ## the simulation -/
+
+structure Sim (s : State) (a : Abs) : Prop where
+  policies : s.policies = a.policies
+  pickers : s.pickers = a.pickers
+  epoch : s.epoch = a.epoch
+  nodup : (s.eps.map (·.name)).Nodup
+  dom : ∀ n, (load s.eps n).isSome = a.inServers n
+  ep : ∀ n e, load s.eps n = some e →
+        e.disabled = specDisabled a.servers n ∧ e.healthy = a.healthy n ∧ e.gen = a.bornAt n ∧ e.probing = !e.disabled
+  rep : ∀ n, a.inServers n = false → a.report.lookup n = none
+
+theorem sim_init : Sim init Abs.init := by
+  refine ⟨rfl, rfl, rfl, by simp [init], ?_, ?_, ?_⟩
+  · intro n; simp [init, load_nil, Abs.init, Abs.inServers, serverNames]
+  · intro n e h; simp [init, load_nil] at h
+  · intro n _; simp [Abs.init]
+
+theorem sim_sync {s : State} {a : Abs} (h : Sim s a) (servers : List Server) (pols : List (List Name)) :
+    Sim (sync s servers pols) (absStep a (.sync servers pols) .none) := by
+  have hin : ∀ n, (absStep a (.sync servers pols) .none).inServers n = decide (n ∈ serverNames servers) := by
+    intro n; simp [absStep, Abs.inServers]
+  refine ⟨rfl, ?_, ?_, ?_, ?_, ?_, ?_⟩
+  · simpa [sync, syncEndpoints, absStep] using h.pickers
+  · simp [sync, syncEndpoints, absStep, h.epoch]
+  · simpa [sync] using nodup_syncEndpoints s servers h.nodup
+  · intro n
+    rw [hin]
+    simp only [sync]
+    rw [load_syncEndpoints]
+    by_cases hn : n ∈ serverNames servers <;> simp [hn]
+  · intro n e he
+    simp only [sync] at he
+    rw [load_syncEndpoints] at he
+    by_cases hn : n ∈ serverNames servers
+    · simp only [hn, if_true, Option.some.injEq] at he
+      have hrep : (absStep a (.sync servers pols) .none).healthy n = a.healthy n := by
+        simp only [absStep, Abs.healthy]
+        rw [report_lookup_sync]
+        simp [hn]
+      have hborn : (absStep a (.sync servers pols) .none).bornAt n = if a.inServers n then a.bornAt n else a.epoch := by
+        simp only [absStep, Abs.bornAt]
+        rw [lookup_map_pair]
+        simp [mem_dedup, hn]
+      have hdis : (absStep a (.sync servers pols) .none).servers = servers := by simp [absStep]
+      rw [hrep, hborn, hdis]
+      cases hl : load s.eps n with
+      | some e0 =>
+        rw [hl] at he
+        simp only [upserted] at he
+        subst he
+        obtain ⟨_, h2, h3, h4, h5⟩ := ensureHC_facts (e0.setDisabled (specDisabled servers n))
+        obtain ⟨_, g2, g3, g4⟩ := setDisabled_facts e0 (specDisabled servers n)
+        obtain ⟨_, k2, k3, _⟩ := h.ep n e0 hl
+        have hdom : a.inServers n = true := by rw [← h.dom n, hl]; rfl
+        refine ⟨by rw [h3, g3], by rw [h4, g4, k2], by rw [h2, g2, k3, hdom]; simp, by rw [h5, h3]⟩
+      | none =>
+        rw [hl] at he
+        simp only [upserted] at he
+        subst he
+        obtain ⟨_, h2, h3, h4, h5⟩ := ensureHC_facts (newEP n s.epoch (specDisabled servers n))
+        have hdom : a.inServers n = false := by rw [← h.dom n, hl]; rfl
+        have hr : a.healthy n = false := by simp [Abs.healthy, h.rep n hdom]
+        refine ⟨by rw [h3]; rfl, by rw [h4, hr]; rfl, by rw [h2, hdom]; simp [newEP, h.epoch], by rw [h5, h3]⟩
+    · simp [hn] at he
+  · intro n hn
+    rw [hin] at hn
+    have : n ∉ serverNames servers := by simpa using hn
+    simp only [absStep]
+    rw [report_lookup_sync]
+    simp [this]
+
+
+/-- a method called on the object stored under `n` that leaves identity and `disabled` alone -/
+theorem sim_updateAt {s : State} {a : Abs} (h : Sim s a) (n : Name) (f : EP → EP) (a' : Abs)
+    (hname : ∀ e, (f e).name = e.name) (hgen : ∀ e, (f e).gen = e.gen) (hdis : ∀ e, (f e).disabled = e.disabled)
+    (hprob : ∀ e, e.probing = (!e.disabled) → (f e).probing = !e.disabled)
+    (ha1 : a'.servers = a.servers) (ha2 : a'.policies = a.policies) (ha3 : a'.born = a.born)
+    (ha4 : a'.epoch = a.epoch) (ha5 : a'.pickers = a.pickers)
+    (hother : ∀ m, m ≠ n → a'.healthy m = a.healthy m)
+    (hn : ∀ e, load s.eps n = some e → (f e).healthy = a'.healthy n)
+    (hrep : ∀ m, a'.inServers m = false → a'.report.lookup m = none) :
+    Sim { s with eps := updateAt s.eps n f } a' := by
+  have hin : ∀ m, a'.inServers m = a.inServers m := by intro m; simp [Abs.inServers, ha1]
+  have hborn : ∀ m, a'.bornAt m = a.bornAt m := by intro m; simp [Abs.bornAt, ha3]
+  refine ⟨by simpa [ha2] using h.policies, by simpa [ha5] using h.pickers, by simpa [ha4] using h.epoch, ?_, ?_, ?_, hrep⟩
+  · simp only; rw [names_updateAt _ _ _ hname]; exact h.nodup
+  · intro m
+    simp only
+    rw [load_updateAt _ _ _ _ hname, hin, ← h.dom m]
+    by_cases hm : m = n
+    · subst hm; cases load s.eps m <;> simp
+    · simp [hm]
+  · intro m e he
+    simp only at he
+    rw [load_updateAt _ _ _ _ hname] at he
+    rw [hborn, ha1]
+    by_cases hm : m = n
+    · subst hm
+      simp only [if_true] at he
+      cases hl : load s.eps m with
+      | none => simp [hl] at he
+      | some e0 =>
+        simp only [hl, Option.map_some, Option.some.injEq] at he
+        subst he
+        obtain ⟨k1, _, k3, k4⟩ := h.ep m e0 hl
+        exact ⟨by rw [hdis, k1], hn e0 hl, by rw [hgen, k3], by rw [hdis]; exact hprob e0 k4⟩
+    · simp only [hm, if_false] at he
+      obtain ⟨k1, k2, k3, k4⟩ := h.ep m e he
+      exact ⟨k1, by rw [hother m hm, k2], k3, k4⟩
+
+theorem sim_trigger {s : State} {a : Abs} (h : Sim s a) (n : Name) :
+    Sim { s with eps := updateAt s.eps n EP.trigger } a := by
+  apply sim_updateAt h n EP.trigger a
+    (fun e => (trigger_facts e).1) (fun e => (trigger_facts e).2.1) (fun e => (trigger_facts e).2.2.1)
+    (fun e he => by rw [(trigger_facts e).2.2.2.2, he]) rfl rfl rfl rfl rfl (fun _ _ => rfl)
+  · intro e he; rw [(trigger_facts e).2.2.2.1]; exact (h.ep n e he).2.1
+  · exact h.rep
+
+theorem sim_ensure {s : State} {a : Abs} (h : Sim s a) (n : Name) :
+    Sim { s with eps := updateAt s.eps n EP.ensureHC } a := by
+  apply sim_updateAt h n EP.ensureHC a
+    (fun e => (ensureHC_facts e).1) (fun e => (ensureHC_facts e).2.1) (fun e => (ensureHC_facts e).2.2.1)
+    (fun e _ => (ensureHC_facts e).2.2.2.2) rfl rfl rfl rfl rfl (fun _ _ => rfl)
+  · intro e he; rw [(ensureHC_facts e).2.2.2.1]; exact (h.ep n e he).2.1
+  · exact h.rep
+
+/-- a health report for `n` arrives (from a probe, or `UpdateStatus` called by anybody) -/
+theorem sim_report {s : State} {a : Abs} (h : Sim s a) (n : Name) (hv : Bool) (f : EP → EP)
+    (hf : ∀ e, (f e).name = e.name ∧ (f e).gen = e.gen ∧ (f e).disabled = e.disabled ∧ (f e).healthy = hv ∧ (f e).probing = e.probing)
+    (hin : a.inServers n = true) :
+    Sim { s with eps := updateAt s.eps n f } { a with report := (n, hv) :: a.report } := by
+  apply sim_updateAt h n f { a with report := (n, hv) :: a.report } (fun e => (hf e).1) (fun e => (hf e).2.1) (fun e => (hf e).2.2.1)
+    (fun e he => by rw [(hf e).2.2.2.2, he]) rfl rfl rfl rfl rfl
+  · intro m hm
+    have : (m == n) = false := by simpa using hm
+    simp [Abs.healthy, List.lookup_cons, this]
+  · intro e _
+    rw [(hf e).2.2.2.1]
+    simp [Abs.healthy, List.lookup_cons]
+  · intro m hm
+    have hm' : a.inServers m = false := by simpa [Abs.inServers] using hm
+    have : m ≠ n := fun x => by rw [x, hin] at hm'; cases hm'
+    have : (m == n) = false := by simpa using this
+    simp only [List.lookup_cons, this]
+    exact h.rep m hm'
+
+
+theorem sim_inServers_iff {s : State} {a : Abs} (h : Sim s a) (n : Name) :
+    a.inServers n = true ↔ n ∈ s.eps.map (·.name) := by
+  rw [← h.dom n, load_isSome_iff]
+
+/-- "eligible" in the abstract state is "present and `IsReady()`" in the endpoint map -/
+theorem sim_eligible_iff {s : State} {a : Abs} (h : Sim s a) (n : Name) :
+    a.eligible n = true ↔ ∃ e, load s.eps n = some e ∧ e.isReady = true := by
+  constructor
+  · intro he
+    simp only [Abs.eligible, Abs.enabled, Bool.and_eq_true, Bool.not_eq_true'] at he
+    obtain ⟨⟨h1, h2⟩, h3⟩ := he
+    have : (load s.eps n).isSome = true := by rw [h.dom n]; exact h1
+    cases hl : load s.eps n with
+    | none => rw [hl] at this; cases this
+    | some e =>
+      obtain ⟨k1, k2, _, _⟩ := h.ep n e hl
+      exact ⟨e, rfl, by simp [EP.isReady, k1, k2, h2, h3]⟩
+  · rintro ⟨e, hl, hr⟩
+    obtain ⟨k1, k2, _, _⟩ := h.ep n e hl
+    have hd : a.inServers n = true := by rw [← h.dom n, hl]; rfl
+    simp only [EP.isReady, Bool.and_eq_true, Bool.not_eq_true'] at hr
+    simp [Abs.eligible, Abs.enabled, hd, ← k1, ← k2, hr.1, hr.2]
+
+theorem sim_names_perm {s : State} {a : Abs} (h : Sim s a) :
+    (s.eps.map (·.name)).Perm (dedup (serverNames a.servers)) := by
+  rw [List.perm_ext_iff_of_nodup h.nodup (nodup_dedup _)]
+  intro n
+  rw [mem_dedup, ← sim_inServers_iff h n]
+  simp [Abs.inServers]
+
+theorem isPerm_congr_right {l l₁ l₂ : List Name} (h : l₁.Perm l₂) : l.isPerm l₁ = l.isPerm l₂ := by
+  rw [Bool.eq_iff_iff, List.isPerm_iff, List.isPerm_iff]
+  exact ⟨fun x => x.trans h, fun x => x.trans h.symm⟩
+
+/-- **one step**: the model's output passes the judge and the simulation is kept -/
+theorem sim_step {s : State} {a : Abs} (h : Sim s a) (op : Op) :
+    judgeStep a op (step s op).2 = true ∧ Sim (step s op).1 (absStep a op (step s op).2) := by
+  cases op with
+  | sync servers pols => exact ⟨by simp [judgeStep, step], sim_sync h servers pols⟩
+  | updateStatus n hv =>
+    refine ⟨by simp [judgeStep, step], ?_⟩
+    simp only [step, absStep]
+    by_cases hin : a.inServers n = true
+    · simp only [hin, if_true]
+      exact sim_report h n hv _ (fun e => updateStatus_facts e hv) hin
+    · have hnone : load s.eps n = none := by
+        cases hl : load s.eps n with
+        | none => rfl
+        | some e => exact absurd (by rw [← h.dom n, hl]; rfl) hin
+      have : updateAt s.eps n (fun e => e.updateStatus hv) = s.eps := by
+        unfold updateAt
+        have hn := load_none_iff.1 hnone
+        conv => rhs; rw [← List.map_id s.eps]
+        apply List.map_congr_left
+        intro e he
+        have : e.name ≠ n := fun x => hn (List.mem_map.2 ⟨e, he, x⟩)
+        simp [this]
+      simp only [hin]
+      rw [this]
+      exact h
+  | trigger n => exact ⟨by simp [judgeStep, step], by simpa [step, absStep] using sim_trigger h n⟩
+  | ensure n => exact ⟨by simp [judgeStep, step], by simpa [step, absStep] using sim_ensure h n⟩
+  | probeFire n hv =>
+    simp only [step]
+    cases hl : load s.eps n with
+    | none => exact ⟨by simp [judgeStep], by simpa [absStep] using h⟩
+    | some e =>
+      simp only
+      by_cases hc : e.canFire = true
+      · simp only [hc, if_true]
+        obtain ⟨k1, _, k3, k4⟩ := h.ep n e hl
+        have hname := load_some_name hl
+        have hin : a.inServers n = true := by rw [← h.dom n, hl]; rfl
+        have hprob : e.probing = true := by
+          simp only [EP.canFire, Bool.and_eq_true] at hc; exact hc.1
+        have hdis : specDisabled a.servers n = false := by
+          rw [← k1]; rw [hprob] at k4; simpa using k4.symm
+        refine ⟨by simp [judgeStep, hname, Abs.enabled, hin, hdis, k3], ?_⟩
+        simp only [absStep]
+        exact sim_report h n hv _ (fun e => fire_facts e hv) hin
+      · simp only [hc]
+        exact ⟨by simp [judgeStep], by simpa [absStep] using h⟩
+  | matchAttrs policy order =>
+    simp only [step, matchAttrs, judgeStep, ← h.policies]
+    cases hp : s.policies[policy]? with
+    | none =>
+      refine ⟨by simp, ?_⟩
+      simp only [absStep]
+      exact { h with pickers := by simp [h.pickers] }
+    | some subset =>
+      simp only
+      by_cases he : subset.isEmpty = true
+      · simp only [he, Bool.not_true, Bool.false_eq_true, if_false]
+        rw [isPerm_congr_right (sim_names_perm h)]
+        by_cases hperm : order.isPerm (dedup (serverNames a.servers)) = true
+        · simp only [hperm, if_true]
+          refine ⟨by simp, ?_⟩
+          simp only [absStep]
+          exact { h with pickers := by simp [h.pickers] }
+        · simp only [hperm]
+          refine ⟨by simp, ?_⟩
+          simp only [absStep]
+          exact { h with pickers := by simp [h.pickers] }
+      · simp only [he, Bool.not_false, if_true]
+        refine ⟨by simp, ?_⟩
+        simp only [absStep]
+        exact { h with pickers := by simp [h.pickers] }
+  | pop j =>
+    simp only [step, judgeStep, ← h.pickers]
+    cases hj : s.pickers[j]? with
+    | none => exact ⟨by simp, by simpa [absStep] using h⟩
+    | some pk =>
+      cases pk with
+      | none => exact ⟨by simp, by simpa [absStep] using h⟩
+      | some us =>
+        simp only
+        have hsim : Sim { s with lb := (pop s.eps s.lb us).2 } a := { h with }
+        refine ⟨?_, by simpa [absStep] using hsim⟩
+        cases hr : (pop s.eps s.lb us).1 with
+        | picked n g =>
+          obtain ⟨e, hl, hg, hmem, hready⟩ := pop_sound hr
+          have helig := (sim_eligible_iff h n).2 ⟨e, hl, hready⟩
+          obtain ⟨_, _, k3, _⟩ := h.ep n e hl
+          simp [hmem, helig, ← hg, k3]
+        | noReady =>
+          have hno := pop_noReady hr
+          simp only [List.all_eq_true, Bool.not_eq_true']
+          intro n hn
+          cases hel : a.eligible n with
+          | false => rfl
+          | true =>
+            obtain ⟨e, hl, hready⟩ := (sim_eligible_iff h n).1 hel
+            rw [hno n hn e hl] at hready; cases hready
+        | panic => exact absurd hr (pop_never_panics _ _ _)
+
+theorem judge_run {s : State} {a : Abs} (h : Sim s a) (ops : List Op) :
+    judgeTrace a (modelTrace s ops) = true := by
+  induction ops generalizing s a with
+  | nil => simp [modelTrace, run, judgeTrace]
+  | cons op ops ih =>
+    obtain ⟨h1, h2⟩ := sim_step h op
+    simp only [modelTrace, run, List.zip_cons_cons, judgeTrace, h1, Bool.true_and]
+    exact ih h2
 
 end KG.Lemmas.Endpoints
